@@ -379,7 +379,8 @@ class Species(AtomCollection):
             )
 
         elif isinstance(value, Hessian):
-            self._hess = value
+            # A copy, so nothing is shared with the Hessian of another species
+            self._hess = deepcopy(value)
 
             if self._hess.atoms is None:
                 self._hess.atoms = self.atoms
@@ -1011,6 +1012,7 @@ class Species(AtomCollection):
             raise ValueError("Invalid mapping. Must be 1-1 for all atoms")
 
         order = sorted(mapping, key=lambda k: mapping[k])
+        old_atoms = self.atoms
         self._set_reordered_atoms(order)
 
         # The gradient and Hessian rows must follow their atoms
@@ -1019,10 +1021,18 @@ class Species(AtomCollection):
 
         if self._hess is not None:
             idxs = [3 * i + k for i in order for k in range(3)]
+            hess_atoms = self._hess.atoms
+
+            if hess_atoms is None or hess_atoms is old_atoms:
+                hess_atoms = self.atoms
+            else:
+                # Evaluated in a different frame, whose atoms are re-ordered
+                hess_atoms = Atoms([hess_atoms[i].copy() for i in order])
+
             self._hess = Hessian(
                 np.asarray(self._hess)[np.ix_(idxs, idxs)],
                 units=self._hess.units,
-                atoms=self.atoms,
+                atoms=hess_atoms,
                 functional=self._hess.functional,
             )
 
@@ -1138,13 +1148,23 @@ class Species(AtomCollection):
 
         if self._hess is not None:
             full_rot_mat = np.kron(np.eye(self.n_atoms), rot_mat)
+            hess_atoms = self._hess.atoms
+
+            if hess_atoms is None or hess_atoms is self.atoms:
+                hess_atoms = self.atoms
+            else:
+                # Evaluated in a different frame, which rotates as well
+                hess_atoms = hess_atoms.copy()
+                for atom in hess_atoms:
+                    atom.rotate(axis=axis, theta=theta, origin=origin)
+
             # NOTE: A new Hessian, so no cached properties are retained
             self._hess = Hessian(
                 np.linalg.multi_dot(
                     (full_rot_mat, np.asarray(self._hess), full_rot_mat.T)
                 ),
                 units=self._hess.units,
-                atoms=self.atoms,
+                atoms=hess_atoms,
                 functional=self._hess.functional,
             )
 
